@@ -239,6 +239,134 @@ DepthToSpaceLaws ==
     /\ OnnxDepthToSpace(t, 2, "CRD") = Mk(<<1, 1, 2, 2>>, "i32", x.data)
     /\ OnnxDepthToSpace(t, 1, "DCR") = t
 
+\* --- matrix products, convolution, pooling, resize (x of rank 1 or 2) ------
+Eye(n) == OnnxEyeLike(Mk(<<n, n>>, "i32", [k \in 1..(n * n) |-> 0]), "i32", 0)
+As4(t) == WithShape(t, <<1, 1>> \o (IF Rank(t) = 2 THEN t.shape ELSE <<1, t.shape[1]>>))    \* [1,1,h,w] view
+W4(vals, h, w) == Mk(<<1, 1, h, w>>, "i32", vals)
+MatMulLaws ==
+  /\ r = 2 =>
+       LET xt == OnnxTranspose(x, <<1, 0>>) IN
+       /\ OnnxMatMul(x, Eye(x.shape[2])) = x /\ OnnxMatMul(Eye(x.shape[1]), x) = x
+       /\ OnnxTranspose(OnnxMatMul(x, xt), <<1, 0>>) = OnnxMatMul(x, xt)
+       /\ OnnxGemm(x, Eye(x.shape[2]), NoT, 1, 1, FALSE, FALSE) = x
+       /\ OnnxGemm(xt, Eye(x.shape[2]), NoT, 1, 1, TRUE, FALSE) = x
+       /\ OnnxGemm(x, xt, NoT, 1, 1, FALSE, FALSE) = OnnxGemm(x, x, NoT, 1, 1, FALSE, TRUE)
+       /\ OnnxGemm(x, Eye(x.shape[2]), x, 2, 3, FALSE, FALSE) = OnnxMul(x, Scalar("i32", 5))
+       /\ OnnxGemm(x, Eye(x.shape[2]), Scalar("i32", 1), 1, 2, FALSE, FALSE) = OnnxAdd(x, Scalar("i32", 2))
+       /\ OnnxMatMulInteger(x, Eye(x.shape[2]), NoT, NoT).data = x.data
+       /\ OnnxMatMulInteger(x, Eye(x.shape[2]), Scalar("i32", 2), NoT) = OnnxSub(x, Scalar("i32", 2))
+       \* batched: a leading batch dimension of 2 on one side broadcasts
+       /\ OnnxMatMul(OnnxExpand(x, <<2>> \o x.shape), Eye(x.shape[2])) = OnnxExpand(x, <<2>> \o x.shape)
+       \* matrix x vector drops the appended dimension
+       /\ x.shape[2] > 0 => OnnxMatMul(x, Vec("i32", Ones(x.shape[2]))) = OnnxReduce("ReduceSum", x, <<1>>, FALSE)
+       /\ x.shape[1] > 0 => OnnxMatMul(Vec("i32", Ones(x.shape[1])), x) = OnnxReduce("ReduceSum", x, <<0>>, FALSE)
+  /\ r = 1 => OnnxMatMul(x, x) = OnnxReduce("ReduceSumSquare", x, <<0>>, FALSE)
+ConvPoolLaws ==
+  (r \in {1, 2} /\ NumEl(x) > 0) =>
+    LET X == As4(x) h == X.shape[3] w == X.shape[4]
+        one == W4(<<1>>, 1, 1)
+        none2 == <<1, 1>> zero4 == <<0, 0, 0, 0>>
+    IN
+    /\ DefConv(X, one, NoT, <<>>, none2, none2, 1, zero4, "NOTSET")
+    /\ OnnxConv(X, one, NoT, none2, none2, 1, zero4, "NOTSET") = X
+    /\ OnnxConv(X, one, Vec("i32", <<3>>), none2, none2, 1, zero4, "NOTSET") = OnnxAdd(X, Scalar("i32", 3))
+    \* a full-size kernel of ones sums everything; padding a 1x1 kernel = Pad
+    /\ OnnxConv(X, W4([k \in 1..(h * w) |-> 1], h, w), NoT, none2, none2, 1, zero4, "VALID").data = <<SeqSum(x.data)>>
+    /\ OnnxConv(X, one, NoT, none2, none2, 1, <<1, 0, 0, 2>>, "NOTSET") = OnnxPad(X, <<1, 0, 0, 2>>, NoT, <<2, 3>>, "constant")
+    \* SAME_UPPER / SAME_LOWER keep the extent at stride 1 and differ by where the odd pad goes
+    /\ OnnxConv(X, W4(<<1, 0>>, 1, 2), NoT, none2, none2, 1, zero4, "SAME_UPPER") = X
+    /\ OnnxConv(X, W4(<<0, 1>>, 1, 2), NoT, none2, none2, 1, zero4, "SAME_LOWER") = X
+    /\ OnnxConv(X, W4(<<0, 1>>, 1, 2), NoT, none2, none2, 1, zero4, "SAME_UPPER")
+         = OnnxSlice(OnnxPad(X, <<0, 1>>, NoT, <<3>>, "constant"), <<1>>, <<1000>>, <<3>>, <<1>>)
+    \* stride 2 with a 1x1 kernel subsamples; dilation only matters for kernels > 1
+    /\ OnnxConv(X, one, NoT, <<2, 2>>, none2, 1, zero4, "NOTSET") = OnnxSlice(X, <<0, 0>>, <<1000, 1000>>, <<2, 3>>, <<2, 2>>)
+    /\ OnnxConv(X, one, NoT, none2, <<2, 3>>, 1, zero4, "NOTSET") = X
+    \* ConvInteger without zero points is Conv; with x_zero_point z and kernel 1 it subtracts z
+    /\ OnnxConvInteger(X, one, NoT, NoT, none2, none2, 1, zero4, "NOTSET").data = x.data
+    /\ OnnxConvInteger(X, one, Scalar("i32", 2), NoT, none2, none2, 1, <<1, 1, 1, 1>>, "NOTSET")
+         = OnnxPad(OnnxSub(X, Scalar("i32", 2)), <<1, 1, 1, 1>>, NoT, <<2, 3>>, "constant")
+    \* ConvTranspose: 1x1 kernel is the identity; stride 2 stuffs zeros; it is the full correlation with the flipped kernel
+    /\ OnnxConvTranspose(X, one, NoT, none2, none2, 1, zero4, <<0, 0>>) = X
+    /\ LET t == OnnxConvTranspose(X, one, NoT, <<2, 2>>, none2, 1, zero4, <<0, 0>>) IN
+       /\ t.shape = <<1, 1, 2 * h - 1, 2 * w - 1>>
+       /\ OnnxSlice(t, <<0, 0>>, <<1000, 1000>>, <<2, 3>>, <<2, 2>>) = X
+       /\ SeqSum(t.data) = SeqSum(x.data)
+    /\ OnnxConvTranspose(X, W4(<<2, -1>>, 1, 2), NoT, none2, none2, 1, zero4, <<0, 0>>)
+         = OnnxConv(OnnxPad(X, <<1, 1>>, NoT, <<3>>, "constant"), W4(<<-1, 2>>, 1, 2), NoT, none2, none2, 1, zero4, "NOTSET")
+    /\ OnnxConvTranspose(X, W4(<<2, -1>>, 1, 2), NoT, none2, none2, 1, <<0, 1, 0, 0>>, <<0, 0>>)     \* pads crop the output
+         = OnnxSlice(OnnxConvTranspose(X, W4(<<2, -1>>, 1, 2), NoT, none2, none2, 1, zero4, <<0, 0>>), <<1>>, <<1000>>, <<3>>, <<1>>)
+    \* pooling
+    /\ OnnxMaxPool(X, none2, none2, none2, zero4, "NOTSET", FALSE) = X
+    /\ OnnxAveragePool(X, none2, none2, none2, zero4, "NOTSET", FALSE, FALSE) = X
+    /\ OnnxMaxPool(X, <<h, w>>, none2, none2, zero4, "NOTSET", FALSE) = OnnxGlobalMaxPool(X)
+    /\ OnnxMaxPool(X, <<h, w>>, none2, none2, zero4, "NOTSET", FALSE).data = <<SeqMax(x.data)>>
+    /\ w >= 2 => OnnxMaxPool(X, <<1, 2>>, none2, none2, zero4, "NOTSET", FALSE)
+                   = OnnxMax(<<OnnxSlice(X, <<0>>, <<-1>>, <<3>>, <<1>>), OnnxSlice(X, <<1>>, <<1000>>, <<3>>, <<1>>)>>)
+    \* padding never wins a MaxPool and is not counted by AveragePool unless asked
+    /\ OnnxMaxPool(X, <<1, 2>>, none2, none2, <<0, 1, 0, 0>>, "NOTSET", FALSE).data[1] = x.data[1]
+    /\ OnnxAveragePool(X, <<1, 2>>, none2, none2, <<0, 1, 0, 0>>, "NOTSET", FALSE, FALSE).data[1] = x.data[1]
+    /\ LET d == OnnxMul(X, Scalar("i32", 2)) IN
+       OnnxAveragePool(d, <<1, 2>>, none2, none2, <<0, 1, 0, 0>>, "NOTSET", FALSE, TRUE).data[1] = x.data[1]
+    /\ DefGlobalAveragePool(OnnxMul(X, Scalar("i32", h * w)))
+    /\ OnnxGlobalAveragePool(OnnxMul(X, Scalar("i32", h * w))).data = <<SeqSum(x.data)>>
+ResizeLaws ==
+  (r \in {1, 2} /\ NumEl(x) > 0) =>
+    LET one == [i \in 1..r |-> [n |-> 1, d |-> 1]]
+        two == [i \in 1..r |-> [n |-> 2, d |-> 1]]
+        half == [i \in 1..r |-> [n |-> 1, d |-> 2]]
+        dbl == [i \in 1..r |-> 2 * x.shape[i]]
+    IN
+    /\ \A cm \in CoordModes, nm \in NearestModes :
+         /\ DefResizeNearest(x, x.shape, one, cm, nm)
+         /\ OnnxResizeNearest(x, x.shape, one, cm, nm) = x
+    \* x2 with asymmetric/floor repeats every element; shrinking back restores x
+    /\ LET up == OnnxResizeNearest(x, dbl, two, "asymmetric", "floor") IN
+       /\ \A k \in 1..NumEl(up) : LET idx == Unravel(k - 1, dbl) IN up.data[k] = At(x, [i \in 1..r |-> idx[i] \div 2])
+       /\ OnnxResizeNearest(up, x.shape, half, "asymmetric", "floor") = x
+       /\ OnnxResizeNearest(up, x.shape, half, "half_pixel", "round_prefer_floor") = x
+       /\ OnnxResizeNearest(x, dbl, two, "half_pixel", "round_prefer_floor") = up
+       /\ OnnxResizeNearest(x, dbl, two, "half_pixel", "round_prefer_ceil") = up
+       /\ OnnxResizeNearest(x, dbl, two, "pytorch_half_pixel", "floor") = OnnxResizeNearest(x, dbl, two, "half_pixel", "floor")
+    \* align_corners keeps the corner elements
+    /\ LET ac == OnnxResizeNearest(x, dbl, two, "align_corners", "round_prefer_floor") IN
+       ac.data[1] = x.data[1] /\ ac.data[NumEl(ac)] = x.data[NumEl(x)]
+EinsumLaws ==
+  /\ r = 2 =>
+       LET xt == OnnxTranspose(x, <<1, 0>>) IN
+       /\ OnnxEinsum(<<x>>, <<<<1, 2>>>>, <<2, 1>>) = xt                                   \* "ij->ji"
+       /\ OnnxEinsum(<<x>>, <<<<1, 2>>>>, <<>>) = OnnxReduce("ReduceSum", x, <<0, 1>>, FALSE)   \* "ij->"
+       /\ OnnxEinsum(<<x>>, <<<<1, 2>>>>, <<1>>) = OnnxReduce("ReduceSum", x, <<1>>, FALSE)     \* "ij->i"
+       /\ OnnxEinsum(<<x, xt>>, <<<<1, 2>>, <<2, 3>>>>, <<1, 3>>) = OnnxMatMul(x, xt)          \* "ij,jk->ik"
+       /\ EinsumImplicitOut(<<<<1, 2>>, <<2, 3>>>>) = <<1, 3>>                                \* "ij,jk"
+       /\ EinsumImplicitOut(<<<<3, 1>>>>) = <<1, 3>>                                          \* "ki" = "ki->ik"
+       /\ OnnxEinsum(<<x, x>>, <<<<1, 2>>, <<1, 2>>>>, <<1, 2>>) = OnnxMul(x, x)               \* "ij,ij->ij"
+       /\ x.shape[1] = x.shape[2] =>
+            OnnxEinsum(<<x>>, <<<<1, 1>>>>, <<>>) = OnnxReduce("ReduceSum", OnnxMul(x, Eye(x.shape[1])), <<0, 1>>, FALSE)   \* trace "ii->"
+  /\ r = 1 => /\ OnnxEinsum(<<x, x>>, <<<<1>>, <<1>>>>, <<>>) = OnnxMatMul(x, x)               \* "i,i->"
+              /\ OnnxEinsum(<<x, x>>, <<<<1>>, <<2>>>>, <<1, 2>>) = OnnxMatMul(OnnxUnsqueeze(x, <<1>>), OnnxUnsqueeze(x, <<0>>))  \* outer product
+ASSUME NearestSpotChecks ==
+  /\ NearestIndex("round_prefer_floor", [p |-> 1, q |-> 2], 9) = 0 /\ NearestIndex("round_prefer_ceil", [p |-> 1, q |-> 2], 9) = 1
+  /\ NearestIndex("round_prefer_floor", [p |-> 3, q |-> 4], 9) = 1 /\ NearestIndex("round_prefer_ceil", [p |-> 1, q |-> 4], 9) = 0
+  /\ NearestIndex("floor", [p |-> -1, q |-> 4], 9) = 0 /\ NearestIndex("ceil", [p |-> 35, q |-> 4], 9) = 8
+  /\ NearestIndex("round_prefer_floor", [p |-> -1, q |-> 2], 9) = 0 /\ NearestIndex("ceil", [p |-> 5, q |-> 4], 9) = 2
+  /\ RoundHalfEven(1, 2) = 0 /\ RoundHalfEven(3, 2) = 2 /\ RoundHalfEven(5, 2) = 2 /\ RoundHalfEven(-1, 2) = 0
+  /\ RoundHalfEven(-3, 2) = -2 /\ RoundHalfEven(7, 4) = 2 /\ RoundHalfEven(5, 4) = 1 /\ RoundHalfEven(-5, 4) = -1
+MiscLaws ==
+  /\ OnnxPRelu(x, Scalar("i32", 1)) = x
+  /\ OnnxLeakyRelu(x, 1) = x /\ OnnxLeakyRelu(x, 0) = OnnxRelu(x)
+  /\ OnnxPRelu(x, Scalar("i32", -1)) = OnnxAbs(x)
+  /\ r = 2 =>
+       LET full(ax) == Vec("i32", [i \in 1..x.shape[1 - ax + 1] |-> x.shape[ax + 1]]) IN
+       /\ x.shape[1] > 0 => OnnxReverseSequence(x, full(0), 1, 0) = OnnxSlice(x, <<-1>>, <<-1000>>, <<0>>, <<-1>>)
+       /\ x.shape[2] > 0 => OnnxReverseSequence(x, full(1), 0, 1) = OnnxSlice(x, <<-1>>, <<-1000>>, <<1>>, <<-1>>)
+       /\ OnnxReverseSequence(x, Vec("i32", [i \in 1..x.shape[2] |-> 0]), 1, 0) = x
+       /\ OnnxReverseSequence(OnnxReverseSequence(x, Vec("i32", [i \in 1..x.shape[2] |-> MinI(1, x.shape[1])]), 1, 0),
+                              Vec("i32", [i \in 1..x.shape[2] |-> MinI(1, x.shape[1])]), 1, 0) = x
+  \* quantize / dequantize with scale s and zero point z are inverse on multiples of s
+  /\ LET f == WithDType(x, "f32") s2 == Vec("f32", <<2>>) z == Vec("u8", <<7>>) IN
+     /\ OnnxDequantizeLinear(WithDType(OnnxQuantizeLinear(OnnxMul(f, Scalar("f32", 2)), s2, z, 1), "u8"), s2, z, 1) = OnnxMul(f, Scalar("f32", 2))
+     /\ OnnxQuantizeLinear(f, Vec("f32", <<1>>), NoT, 1).data = [k \in 1..Len(x.data) |-> MaxI(x.data[k], 0)]    \* uint8 saturation
+
 \* the dispatcher agrees with the operators and applies the ONNX defaults
 DispatcherDefaults ==
   /\ Eval("Transpose", [perm |-> <<>>], <<In(x)>>) = Ok1(OnnxTranspose(x, ReversePerm(r)))
